@@ -74,3 +74,15 @@ claim("C13",
       "keeps the summary annotation equal to the final spec and is idempotent, over an exhaustive abstract domain with boundary priorities; each real verdict (admitted => rules) and each real mutated pod (second admission after a JSON round trip included) is checked by TLC against the predicates.",
       "Trusted: TLC, fake client with ClusterColocationProfile objects, the abstraction of the pod back to the record (field reads). One-directional admit check as the statement says; numbers < 2^31; init-container / overhead summary not judged (code TODO).",
       "DESIGN.md 5 C13")
+claim("C11",
+      "TLA+ spec Evict (eviction loop as a process; predicates El / Or / St / Tw / Us / Rl; transcription of KillAndEvictPods): TLC exhaustive MC over <= 4 pods, contributions 0..2, targets 0..4, 1-2 tasks, all failure / already-evicted patterns; recorded Evict call sequences and ReleaseLists of the real loop and of the real memory / cpu strategies (eligibility + sorting + release functions) validated by TLC (trace validation)",
+      "TLC checks on the loop model that victims are eligible, taken in an order consistent with the published pre-order, that eviction stops once released + pending covers the target, that no pod is evicted twice and that the returned release equals the contributions; "
+      "the real KillAndEvictPods with a recording executor (eviction calls failing, pods already evicted, one or several simultaneous tasks) and the real BE/priority strategies are run on enumerated + random inputs and each call sequence is checked by TLC, ties accepted in any order.",
+      "Trusted: TLC, gomock informer / metric cache of the package tests, attribution of an Evict call to its task through the message text. Candidate lists without duplicates; pods carry a non-zero priority.",
+      "DESIGN.md 5 C11")
+claim("C20",
+      "TLA+ spec SloLayering (abstract sections absent/empty/malformed/parsed, Layered operator, NoLeak; transcription of default<-cluster<-first-matching-node merge with keep-old-on-error): TLC exhaustive MC incl. update histories of length <= 3; TLC-generated and random ConfigMap sequences rendered to real ConfigMaps, fed to the real syncConfig / getNodeSLOSpec, every field path of the five strategy types observed as tokens and validated by TLC (trace validation)",
+      "TLC checks on the transcription that the delivered value of every field equals Layered (first matching node entry if it sets the field, else cluster, else default; absent => defaults; malformed => previous effective section) and that nothing leaks from non-selecting entries, "
+      "over 4 label sets, overlapping selectors and all update sequences up to length 3; the real handler is driven with the same sequences over all 181 real field paths (chosen by reflection) and every observed value is checked by TLC.",
+      "Trusted: TLC, fake client / recorder of the package tests, DefaultSLOCfg() as the source of defaults (a change inside it is invisible). Explicit nulls, empty lists, unknown keys not generated; extension strategies out of scope.",
+      "DESIGN.md 5 C20")
